@@ -233,8 +233,11 @@ def _sched(shard):
             if isinstance(v, (tuple, list)):
                 return np.concatenate([flat(u) for u in v]) if len(v) else np.zeros(0)
             return np.atleast_1d(np.asarray(v, dtype=float)).ravel()
-        got = flat(disp(*[a.copy() if isinstance(a, np.ndarray) else a for a in args]))
-        ref = flat(r["reference"])
+        cargs = [a.copy() if isinstance(a, np.ndarray) else a for a in args]
+        cret = disp(*cargs)
+        # what the kernel delivers: its return value (if any) and the final contents of its array arguments
+        got = flat([cret if cret is not None else []] + [a for a in cargs if isinstance(a, np.ndarray)])
+        ref = flat([r["reference"] if r["reference"] is not None else []] + list(r["reference_arrays"]))
         scale = max(float(np.max(np.abs(ref))) if ref.size else 0.0, 1e-300)
         if got.shape != ref.shape or not np.all(np.abs(got - ref) <= 1e-11 * max(scale, scale * scale)):
             add("model-vs-compiled", f"lifted in-order execution {ref.tolist()[:8]} differs from the compiled code {got.tolist()[:8]}")
